@@ -276,6 +276,37 @@ class Lang:
         return True, ""
 
 
+def included(a: "Lang", b: "Lang", limit: int = 200000) -> Tuple[bool, str]:
+    """L(a) subset of L(b) (full-match languages over ALPHABET)? Product exploration of the two lazily built DFAs;
+    returns (True, "") or (False, witness string accepted by `a` but not by `b`)."""
+    start = (a.initial(), b.initial())
+    seen = {start}
+    todo: List[Tuple[Tuple[FrozenSet[int], FrozenSet[int]], str]] = [(start, "")]
+    n = 0
+    while todo:
+        (sa, sb), wit = todo.pop(0)
+        n += 1
+        if n > limit:
+            raise AnalysisError("regex inclusion: state space too large")
+        if a.accepting(sa, at_begin=(wit == "")) and not b.accepting(sb, at_begin=(wit == "")):
+            return False, wit
+        if not sa:
+            continue  # dead state of a: nothing more can be accepted
+        # group characters by their effect to keep the branching small
+        succ: Dict[Tuple[FrozenSet[int], FrozenSet[int]], str] = {}
+        for ch in ALPHABET:
+            na = a.step(sa, ch)
+            if not na:
+                continue
+            nb = b.step(sb, ch)
+            succ.setdefault((na, nb), ch)
+        for st, ch in succ.items():
+            if st not in seen:
+                seen.add(st)
+                todo.append((st, wit + ch))
+    return True, ""
+
+
 class Seg:
     """A segment of an abstract string: literal text, or a field alphabet^[lo..hi] (hi None = unbounded)."""
 
